@@ -140,6 +140,7 @@ func (in *Interp) dispatch(cc *CallCtx, ret func(*State, []Val)) {
 	if cc.Iface {
 		// pure getter through an interface: a canonical expression, no effect
 		if cc.Recv != nil && sig.Params().Len() == 0 && sig.Results().Len() == 1 && in.isPureGetter(fn) {
+			in.markGetterFields(fn)
 			switch cc.Recv.K {
 			case KExpr:
 				key := cc.Recv.Key + "." + fn.Name() + "()"
@@ -400,9 +401,19 @@ func (in *Interp) convert(v Val, to, from types.Type, st *State) Val {
 			if b, ok := to.Underlying().(*types.Basic); ok && b.Info()&types.IsString != 0 {
 				return unknown
 			}
-			return Val{K: KConst, C: wrapInt(v.C, to), T: to, Key: v.Key}
+			ot := v.OT
+			if ot == nil {
+				if n, ok := v.T.(*types.Named); ok && n.Obj().Pkg() != nil && isModulePkg(n.Obj().Pkg()) {
+					ot = v.T
+				}
+			}
+			oc := v.OC
+			if oc == nil {
+				oc = v.C
+			}
+			return Val{K: KConst, C: wrapInt(v.C, to), T: to, Key: v.Key, OT: ot, OC: oc}
 		}
-		return Val{K: KConst, C: v.C, T: to, Key: v.Key}
+		return Val{K: KConst, C: v.C, T: to, Key: v.Key, OT: v.OT, OC: v.OC}
 	case KSym, KExpr, KLin, KObj, KNil, KNonNil, KAlloc, KSlice:
 		nv := v
 		nv.T = to
@@ -604,4 +615,34 @@ func (in *Interp) isPureLoopPredicate(fn *types.Func) bool {
 	})
 	res = hasLoop && pure
 	return res
+}
+
+// markGetterFields records as read the fields returned by the module implementations of a pure
+// getter called through an interface.
+func (in *Interp) markGetterFields(m *types.Func) {
+	if in.getterMarked == nil {
+		in.getterMarked = map[*types.Func]bool{}
+	}
+	if in.getterMarked[m] {
+		return
+	}
+	in.getterMarked[m] = true
+	for f, d := range in.P.funcDecls {
+		if f.Name() != m.Name() || d.Body == nil || len(d.Body.List) != 1 {
+			continue
+		}
+		rs, ok := d.Body.List[0].(*ast.ReturnStmt)
+		if !ok || len(rs.Results) != 1 {
+			continue
+		}
+		info := in.P.declPkg[f].TypesInfo
+		ast.Inspect(rs.Results[0], func(n ast.Node) bool {
+			if se, ok := n.(*ast.SelectorExpr); ok {
+				if sel := info.Selections[se]; sel != nil && sel.Kind() == types.FieldVal {
+					in.FieldReads[sel.Obj().(*types.Var)] = true
+				}
+			}
+			return true
+		})
+	}
 }
